@@ -16,6 +16,7 @@
 
 use std::{cmp, thread};
 use std::fs::{self, canonicalize, create_dir_all, read_link, File, Metadata};
+use std::io::ErrorKind;
 use std::path::{Component, Path, PathBuf};
 use std::sync::Arc;
 
@@ -170,6 +171,17 @@ pub enum Operation {
     Special(PathBuf, PathBuf),
 }
 
+/// Whether there is an entry at `path` itself (lstat, so a dangling
+/// symbolic link counts). A failure other than "not found" is an
+/// error, not "absent".
+pub fn entry_exists(path: &Path) -> Result<bool> {
+    match path.symlink_metadata() {
+        Ok(_) => Ok(true),
+        Err(e) if e.kind() == ErrorKind::NotFound => Ok(false),
+        Err(e) => Err(e.into()),
+    }
+}
+
 pub fn tree_walker(
     sources: Vec<PathBuf>,
     dest: &Path,
@@ -220,7 +232,9 @@ pub fn tree_walker(
                 target_base.clone()
             };
 
-            if config.no_clobber && target.exists() {
+            // lstat: a dangling symbolic link is an existing entry too
+            // (and would be written through).
+            if config.no_clobber && entry_exists(&target)? {
                 let msg = "Destination file exists and --no-clobber is set.";
                 stats.send(StatusUpdate::Error(
                     XcpError::DestinationExists(msg, target)))?;
